@@ -194,6 +194,95 @@ theorem barConsole_exact (o : BarOpts) (w : Int)
         · exact hbody c (List.mem_of_mem_drop h)
       · simp only [rep, List.mem_replicate] at h; rw [h.2]; decide
 
+theorem drop_replicate_append {α : Type} (n k : Nat) (a : α) (e : List α) (h : k ≤ n) :
+    (List.replicate n a ++ e).drop k = List.replicate (n - k) a ++ e := by
+  rw [List.drop_append_of_le_length (by simp; exact h)]
+  simp
+
+theorem drop_body (a b : Nat) (px ex : List Char) (hex : ex.length ≤ 1) (h : a + px.length ≤ b + 1) :
+    (List.replicate b '█' ++ ex).drop (a + px.length)
+      = List.replicate (b - (a + px.length)) '█' ++ (if a + px.length ≤ b then ex else []) := by
+  by_cases hle : a + px.length ≤ b
+  · rw [drop_replicate_append _ _ _ _ hle, if_pos hle]
+  · rw [if_neg hle, List.drop_eq_nil_of_le (by simp; omega)]
+    have : b - (a + px.length) = 0 := by omega
+    rw [this]; rfl
+
+/-- **Which cells of a `Bar` are blank, partial and full**, as a function of `begin`, `end`, `size`.
+With `lo = ⌊8·width·begin/size⌋` and `hi = ⌊8·width·end/size⌋` (eighths of a cell), `0 ≤ lo ≤ hi ≤ 8·width`:
+`lo / 8` blank cells, then — if `lo` is not a multiple of 8 — one right-aligned partial block
+`BEGIN[lo % 8]`, then full blocks up to cell `hi / 8`, then — if `hi` is not a multiple of 8 and that
+cell is not already taken by the begin block — one left-aligned partial block `END[hi % 8]`, then blanks
+up to `width`. -/
+theorem barConsole_spec (o : BarOpts) (w : Int)
+    (hsd : 0 < o.size.den) (hbd : 0 < o.beginV.den) (hed : 0 < o.endV.den)
+    (hb0 : 0 ≤ o.beginV.num) (hes : o.endV.le o.size = true) (hlt : o.endV.le o.beginV = false)
+    (hw : 0 ≤ barWidth o.width w) :
+    let width := barWidth o.width w
+    let lo := (width * 8 * o.beginV.num * o.size.den) / (o.beginV.den * o.size.num)
+    let hi := (width * 8 * o.endV.num * o.size.den) / (o.endV.den * o.size.num)
+    let px : List Char := if lo % 8 != 0 then [beginBlocks.getD (lo % 8).toNat ' '] else []
+    let ex : List Char := if hi % 8 != 0 then [endBlocks.getD (hi % 8).toNat ' '] else []
+    0 ≤ lo ∧ lo ≤ hi ∧ hi ≤ width * 8 ∧
+    barConsole (σ := σ) o w =
+      [seg (List.replicate (lo / 8).toNat ' ' ++ px
+            ++ (List.replicate ((hi / 8).toNat - ((lo / 8).toNat + px.length)) '█'
+                ++ (if (lo / 8).toNat + px.length ≤ (hi / 8).toNat then ex else []))
+            ++ List.replicate (width.toNat - ((hi / 8).toNat + ex.length)) ' '), nl] := by
+  intro width lo hi px ex
+  have hes' := hes
+  have hlt0 := hlt
+  simp only [Rat'.le, decide_eq_true_eq, decide_eq_false_iff_not] at hes hlt
+  have hbd' : (0 : Int) < o.beginV.den := by omega
+  have hed' : (0 : Int) < o.endV.den := by omega
+  have hsd' : (0 : Int) < o.size.den := by omega
+  have hen : 0 < o.endV.num := by
+    by_cases h : 0 < o.endV.num
+    · exact h
+    · have h1 : o.endV.num * o.beginV.den ≤ 0 := Int.mul_nonpos_of_nonpos_of_nonneg (by omega) (by omega)
+      have h2 : 0 ≤ o.beginV.num * o.endV.den := Int.mul_nonneg hb0 (by omega)
+      omega
+  have hsn : 0 < o.size.num := by
+    by_cases h : 0 < o.size.num
+    · exact h
+    · have h1 : o.size.num * o.endV.den ≤ 0 := Int.mul_nonpos_of_nonpos_of_nonneg (by omega) (by omega)
+      have h2 : 0 < o.endV.num * o.size.den := Int.mul_pos hen hsd'
+      omega
+  have hk : 0 ≤ width * 8 := by show 0 ≤ barWidth o.width w * 8; omega
+  have hp0 : 0 ≤ lo :=
+    Int.ediv_nonneg (Int.mul_nonneg (Int.mul_nonneg hk hb0) (by omega)) (Int.mul_nonneg (by omega) (by omega))
+  have hpb : lo ≤ hi := by
+    apply ediv_le_ediv_cross _ _ _ _ (Int.mul_pos hbd' hsn) (Int.mul_pos hed' hsn)
+    have e1 : width * 8 * o.beginV.num * o.size.den * (o.endV.den * o.size.num)
+        = (width * 8 * o.size.den * o.size.num) * (o.beginV.num * o.endV.den) := by
+      simp only [Int.mul_assoc, Int.mul_comm, Int.mul_left_comm]
+    have e2 : width * 8 * o.endV.num * o.size.den * (o.beginV.den * o.size.num)
+        = (width * 8 * o.size.den * o.size.num) * (o.endV.num * o.beginV.den) := by
+      simp only [Int.mul_assoc, Int.mul_comm, Int.mul_left_comm]
+    rw [e1, e2]
+    apply Int.mul_le_mul_of_nonneg_left (by omega)
+    exact Int.mul_nonneg (Int.mul_nonneg hk (by omega)) (by omega)
+  have hbw : hi ≤ width * 8 := by
+    apply Int.ediv_le_of_le_mul (Int.mul_pos hed' hsn)
+    have e1 : width * 8 * o.endV.num * o.size.den = (width * 8) * (o.endV.num * o.size.den) := by
+      simp only [Int.mul_assoc]
+    have e2 : width * 8 * (o.endV.den * o.size.num) = (width * 8) * (o.size.num * o.endV.den) := by
+      simp only [Int.mul_comm]
+    rw [e1, e2]
+    exact Int.mul_le_mul_of_nonneg_left hes hk
+  refine ⟨hp0, hpb, hbw, ?_⟩
+  have hpx : px.length ≤ 1 := by simp only [px]; split <;> simp
+  have hex : ex.length ≤ 1 := by simp only [ex]; split <;> simp
+  unfold barConsole
+  simp only [hlt0, Bool.false_eq_true, if_false]
+  rw [truncMulDiv_eq _ _ _ hk hb0 (by omega), truncMulDiv_eq _ _ _ hk (by omega) (by omega)]
+  show [seg ((rep (lo / 8) ' ' ++ px) ++ List.drop (rep (lo / 8) ' ' ++ px).length (rep (hi / 8) '█' ++ ex)
+      ++ rep (width - ((rep (hi / 8) '█' ++ ex).length : Nat)) ' '), nl] = _
+  simp only [rep, List.length_append, List.length_replicate]
+  rw [drop_body _ _ _ _ hex (by omega)]
+  congr 4
+  omega
+
 /-! ## ProgressBar -/
 
 theorem ite_length {α : Type} {c : Prop} [Decidable c] (a b : List α) (n : Nat) (ha : a.length = n) (hb : b.length = n) :
